@@ -145,33 +145,29 @@ theorem schulze_scale (k : Rat) (hk : 0 < k) (v : Pairwise) (n : Nat) : schulze 
 
 /-! ### pairwise win scorers, ranked pairs -/
 
+theorem winning_votes_value_scale (k : Rat) (hk : 0 < k) (c r : Rat) :
+    Gen.PairwinScorer.winning_votes_value (k * c) (k * r) = k * Gen.PairwinScorer.winning_votes_value c r := by
+  unfold Gen.PairwinScorer.winning_votes_value
+  simp only [gt_iff_lt, mul_lt_mul_iff_right₀ hk, decide_eq_true_eq]
+  split <;> simp
+
+theorem margins_value_scale (k : Rat) (c r : Rat) :
+    Gen.PairwinScorer.margins_value (k * c) (k * r) = k * Gen.PairwinScorer.margins_value c r := by
+  unfold Gen.PairwinScorer.margins_value; rw [mul_sub]
+
+theorem pairwise_opposition_value_scale (k : Rat) (c r : Rat) :
+    Gen.PairwinScorer.pairwise_opposition_value (k * c) (k * r) = k * Gen.PairwinScorer.pairwise_opposition_value c r := rfl
+
 theorem scorePairs_scale (k : Rat) (hk : 0 < k) (sc : Scorer) (v : Pairwise) :
     scorePairs sc (scaleP k v) = scaleP k (scorePairs sc v) := by
-  cases sc with
-  | winningVotes =>
-    simp only [scorePairs]
-    have hfun : (fun e : Pair × Rat => (e.1, if pget (scaleP k v) (e.1.2, e.1.1) < e.2 then e.2 else 0))
-        = (fun e : Pair × Rat => (e.1, if k * pget v (e.1.2, e.1.1) < e.2 then e.2 else 0)) := by
-      funext e; rw [pget_scale]
-    rw [hfun]
+  have hpg : pget (scaleP k v) = fun p => k * pget v p := by funext p; exact pget_scale k v p
+  cases sc <;>
+  · simp only [scorePairs, hpg]
     unfold scaleP
     rw [List.map_map, List.map_map]
     apply List.map_congr_left
     intro e _
-    simp only [Function.comp, mul_lt_mul_iff_right₀ hk]
-    split <;> simp
-  | margins =>
-    simp only [scorePairs]
-    have hfun : (fun e : Pair × Rat => (e.1, e.2 - pget (scaleP k v) (e.1.2, e.1.1)))
-        = (fun e : Pair × Rat => (e.1, e.2 - k * pget v (e.1.2, e.1.1))) := by
-      funext e; rw [pget_scale]
-    rw [hfun]
-    unfold scaleP
-    rw [List.map_map, List.map_map]
-    apply List.map_congr_left
-    intro e _
-    simp only [Function.comp, mul_sub]
-  | pairwiseOpposition => rfl
+    simp only [Function.comp, winning_votes_value_scale k hk, margins_value_scale, pairwise_opposition_value_scale]
 
 theorem insertDescBy_congr (key key' : Pair → Rat) (h : ∀ a b, key' a < key' b ↔ key a < key b) (x : Pair) (l : List Pair) :
     insertDescBy key' x l = insertDescBy key x l := by
